@@ -5,6 +5,7 @@ import BigtoolsModel.Tiler3
 import BigtoolsModel.BedZoomCompose
 import BigtoolsModel.WigSections
 import BigtoolsModel.Stats2
+import BigtoolsModel.BedSummary
 import BigtoolsModel.BBIWrite
 import BigtoolsModel.FileOf
 import BigtoolsModel.AutoSqlNTest
@@ -17,16 +18,6 @@ structure WigV where
   s : Nat
   e : Nat
   bits : Nat
-
-/-- consecutive records grouped into chromosome runs, in order of appearance -/
-def groupRuns {α} (recs : List (String × α)) : List (String × List α) :=
-  let rec go : List (String × α) → Option (String × List α) → List (String × List α)
-    | [], none => []
-    | [], some (c, acc) => [(c, acc.reverse)]
-    | (c, x) :: rest, none => go rest (some (c, [x]))
-    | (c, x) :: rest, some (c', acc) =>
-      if c == c' then go rest (some (c', x :: acc)) else (c', acc.reverse) :: go rest (some (c, [x]))
-  go recs none
 
 def chromSizes (c : Case) : List (String × Nat) := (c.records "CHROM").map fun l => (l.getD 1 "", nat (l.getD 2 "0"))
 
@@ -150,22 +141,9 @@ structure BedE where
 
 def segsOf (es : List (Nat × Nat)) : List SW.Seg := (SW.sweepAll 4294967295 es [] []).1
 
-structure BSm where
-  bases : Nat
-  sum : Nat
-  sumsq : Nat
-  mn : Nat
-  mx : Nat
-
-def bedChromSummary (es : List (Nat × Nat)) : BSm :=
-  let segs := (segsOf es).filter fun g => g.s < g.e
-  let ds := segs.map (·.d)
-  ⟨(segs.map fun g => g.e - g.s).sum, (segs.map fun g => (g.e - g.s) * g.d).sum,
-   (segs.map fun g => (g.e - g.s) * g.d * g.d).sum, ds.foldl min (ds.headD 0), ds.foldl max 0⟩
-
-def bedMerge (a b : BSm) : BSm :=
-  let (mn, mx) := if b.bases > 0 then (if a.bases > 0 then (min a.mn b.mn, max a.mx b.mx) else (b.mn, b.mx)) else (a.mn, a.mx)
-  ⟨a.bases + b.bases, a.sum + b.sum, a.sumsq + b.sumsq, mn, mx⟩
+/-- per-chromosome summary from the emitted segments and the cross-chromosome merge: `BSUM.ofSegs` / `BSUM.merge`
+    (theorem `BSUM.mergeAll_ofSegs`) -/
+def bedChromSummary (es : List (Nat × Nat)) : BSUM.Sm := BSUM.ofSegs (segsOf es)
 
 /-- zoom records of one chromosome: the flagged tiler over the emitted depth segments; the sum of squares is the
     `sum` of the same run on squared depths (`Tiler2.run3_rel`) -/
@@ -191,8 +169,8 @@ def bedCase (c : Case) : List String :=
     let fc := ASN.fieldCount ASN.asciiCC true text
     let sms := runs.map fun (_, es) => bedChromSummary (es.map fun x => (x.s, x.e))
     let t := match sms with
-      | [] => (⟨0, 0, 0, 0, 0⟩ : BSm)
-      | s :: rest => rest.foldl bedMerge s
+      | [] => (⟨0, 0, 0, 0, 0⟩ : BSUM.Sm)
+      | s :: rest => rest.foldl BSUM.merge s
     let n := (runs.map (·.2.length)).sum
     let answers := (c.records "Q").zipIdx.map fun (q, qi) =>
       let chrom := q.getD 2 ""
